@@ -230,7 +230,7 @@ def find(tree, func):
     return hits[-1]
 
 
-IND = "simp_all +zetaDelta [Nat.and_one_is_mod, Nat.mod_two_ne_zero]"
+IND = "simp_all +zetaDelta [Nat.and_one_is_mod, Nat.mod_two_ne_zero, Nat.and_comm, Nat.add_comm, Nat.xor_comm]"
 
 
 def main():
